@@ -50,9 +50,8 @@ def validity_repr(v) -> str:
 def writer_reader_rules(prog, res: Result):
     """R11.1: validity kinds stored by update() == kinds computed by _date2validity, same component order."""
     mc = prog.cls("MoneyConverter")
-    d2v = mc.attrs.get("_date2validity")
-    if not isinstance(d2v, ast.Dict):
-        raise AnalysisError("anchor vanished: MoneyConverter._date2validity table")
+    from ..anchors import date_to_validity_table
+    _tbl_name, d2v = date_to_validity_table(prog)
     reader = {}
     for k, v in zip(d2v.keys, d2v.values):
         ks = src_of(k)
@@ -174,6 +173,8 @@ def run(prog, tier) -> Result:
         cr.run("R11.3", MC("get_rate"), f"get_rate, validity kind {KINDS.get(vt, 'unset')}", setup_gr(vt), judge_gr,
                min_paths=1 if vt is None else 6)
 
+    from ..anchors import rate_lookup
+    GETR = rate_lookup(prog)
     # ---- R11.4 / R11.6 _get_rate: one lookup, key from the effective date / default date
     def setup_getr(vtype, with_date):
         def setup(c):
@@ -204,10 +205,10 @@ def run(prog, tier) -> Result:
         return judge
     for vt in ("int", "tuple", "date", "NoneType"):
         for wd in (True, False):
-            cr.run("R11.4" if wd else "R11.6", MC("_get_rate"),
+            cr.run("R11.4" if wd else "R11.6", GETR,
                    f"_get_rate kind {KINDS[vt]}, {'explicit' if wd else 'default'} date",
                    setup_getr(vt, wd), judge_getr(vt, wd))
-    cr.run("R11.4", MC("_get_rate"), "_get_rate before any update", setup_getr(None, True),
+    cr.run("R11.4", GETR, "_get_rate before any update", setup_getr(None, True),
            lambda o: expect_raise(o, ["KeyError"]))
     # constructor keeps the configured callable (default date.today)
     init = MC("__init__")
